@@ -595,6 +595,76 @@ func (e *specEnv) call(s *SExpr) Val {
 			i.T, vc.intSort(), j.T, vc.intSort(),
 			vc.cmp("<=", vc.intLit(0), i.T, true), vc.cmp("<", i.T, j.T, true), vc.cmp("<", j.T, vc.slLen(sv), true),
 			vc.slArr(sv), i.T, vc.slArr(sv), j.T))
+	case "final":
+		// final(x): the value of the Go variable x at the return (parameters otherwise denote entry values)
+		if len(args) != 1 || args[0].Op != "id" {
+			e.fail("final(identifier)")
+		}
+		saved, had := e.names[args[0].Name]
+		delete(e.names, args[0].Name)
+		v, ok := e.lookup(args[0].Name)
+		if had {
+			e.names[args[0].Name] = saved
+		}
+		if !ok {
+			e.fail("final: unknown variable %s", args[0].Name)
+		}
+		return v
+	case "qget":
+		// qget(q, k): url.Values.Get — first value of k, or ""
+		m := argv(0)
+		k := argv(1)
+		inf := vc.info(m.Sort)
+		if inf == nil || inf.Kind != kMap {
+			e.fail("qget of non-map")
+		}
+		vs := vc.mapVal(m, k.T)
+		first := vc.slIndex(vs, vc.intLit(0))
+		return Val{T: ite(and(vc.mapDom(m, k.T), vc.cmp(">", vc.slLen(vs), vc.intLit(0), true)), first.T, "str_empty"), Sort: "Str", GoT: types.Typ[types.String]}
+	case "libfn":
+		// libfn("pkg.Func", resultIndex, args...): the uninterpreted function standing for a pure library function
+		if len(args) < 2 || args[0].Op != "str" || args[1].Op != "int" {
+			e.fail("libfn(\"pkg.Func\", index, args...)")
+		}
+		var sorts, terms []string
+		var vals []Val
+		for i := 2; i < len(args); i++ {
+			v := argv(i)
+			vals = append(vals, v)
+			sorts = append(sorts, v.Sort)
+			terms = append(terms, v.T)
+		}
+		key := args[0].Name
+		if k := strings.LastIndex(key, "."); k > 0 && !strings.Contains(key[:k], "/") {
+			// qualify a short package name through the imports
+			parts := strings.SplitN(key, ".", 2)
+			key = x.prog.resolveQual(e.pkgPath, parts[0]) + "." + parts[1]
+		}
+		name := fmt.Sprintf("uf_%s_%s", sanitize(key), args[1].Name)
+		if len(name) > 100 {
+			name = name[:100]
+		}
+		name += "_" + sanitize(strings.Join(sorts, "_"))
+		if len(name) > 160 {
+			name = name[:160]
+		}
+		if !x.vc.declared["fun:"+name] {
+			// the code under contract does not call this function (any more): declare the symbol from the
+			// library signature, so that the clause is about a function the code does not compute
+			k := strings.LastIndex(key, ".")
+			tp := x.prog.typesPkg(key[:k])
+			var fobj *types.Func
+			if tp != nil {
+				fobj, _ = tp.Scope().Lookup(key[k+1:]).(*types.Func)
+			}
+			idx, _ := strconv.Atoi(args[1].Name)
+			if fobj == nil || idx >= fobj.Type().(*types.Signature).Results().Len() {
+				e.fail("libfn: unknown library function %s", key)
+			}
+			x.vc.declFun(name, sorts, x.vc.sortOf(fobj.Type().(*types.Signature).Results().At(idx).Type()))
+		}
+		rs := x.vc.funRet[name]
+		return Val{T: fmt.Sprintf("(%s %s)", name, strings.Join(terms, " ")), Sort: rs}
 	case "as":
 		// as(x, "T"): x converted to the (interface) type T
 		if len(args) != 2 || args[1].Op != "str" {
